@@ -253,7 +253,7 @@ func (f *g2lFn) letLine(ind int, obj types.Object, name string, t types.Type, va
 	if f.mutated[obj] {
 		mut = "mut "
 	}
-	return fmt.Sprintf("%slet %s%s : %s := %s", g2lInd(ind), mut, name, f.lean(t), val)
+	return fmt.Sprintf("%slet %s%s : %s := %s", g2lInd(ind), mut, name, f.leanVar(obj, t), val)
 }
 
 // proj gives the i-th component of an n-tuple held in variable t.
@@ -289,7 +289,7 @@ func (f *g2lFn) assignTo(l ast.Expr, val string, define bool, ind int) []string 
 	case *ast.SelectorExpr:
 		// x.f = v  ⇒  x = { x with f := v }   (x a struct VALUE, possibly itself a field or element)
 		xt := f.typeOf(x.X)
-		if g2lKindOf(xt) != kStruct {
+		if g2lKindOf(xt) != kStruct && !f.inOutBase(x.X) {
 			f.fail("assignment to `%s` (only fields of struct values; through a pointer the callee's caller would see it)", f.src(l))
 		}
 		n := f.namedOf(xt)
@@ -302,6 +302,9 @@ func (f *g2lFn) assignTo(l ast.Expr, val string, define bool, ind int) []string 
 		return f.assignTo(x.X, fmt.Sprintf("{ %s with %s := %s }", f.expr(x.X), f.fieldLean(n, x.Sel.Name), val), false, ind)
 	case *ast.IndexExpr:
 		// x[i] = v  ⇒  x = x.set i v   (x an ARRAY value; slices alias their backing array)
+		if out, ok := f.mapAssign(x, val, ind); ok {
+			return out
+		}
 		if _, isArr := f.typeOf(x.X).Underlying().(*types.Array); !isArr {
 			f.fail("assignment to an element of `%s` (not an array value: slices alias their backing array)", f.src(x.X))
 		}
@@ -336,20 +339,30 @@ func (f *g2lFn) assign(x *ast.AssignStmt, ind int) []string {
 		val := f.arith(op, g2lPar(f.expr(x.Lhs[0])), g2lPar(f.expr(x.Rhs[0])), t, x.Rhs[0], x)
 		return f.assignTo(x.Lhs[0], val, false, ind)
 	case len(x.Lhs) == len(x.Rhs) && len(x.Lhs) == 1:
-		return f.assignTo(x.Lhs[0], f.expr(x.Rhs[0]), define, ind)
+		return f.assignTo(x.Lhs[0], f.rhsFor(x.Lhs[0], x.Rhs[0], define), define, ind)
 	case len(x.Lhs) == len(x.Rhs):
 		// parallel assignment: all right-hand sides first
 		var out []string
 		tmps := make([]string, len(x.Rhs))
 		for i, r := range x.Rhs {
 			tmps[i] = f.fresh("t")
-			out = append(out, fmt.Sprintf("%slet %s : %s := %s", g2lInd(ind), tmps[i], f.lean(f.typeOf(r)), f.expr(r)))
+			rv := f.rhsFor(x.Lhs[i], r, define)
+			rt := f.lean(f.typeOf(r))
+			if id, ok := ast.Unparen(x.Lhs[i]).(*ast.Ident); ok && g2lIsPtr(f.typeOf(r)) {
+				if o := f.g.info.ObjectOf(id); o != nil && f.valPtr[o] {
+					rt = f.leanVar(o, f.typeOf(r))
+				}
+			}
+			out = append(out, fmt.Sprintf("%slet %s : %s := %s", g2lInd(ind), tmps[i], rt, rv))
 		}
 		for i, l := range x.Lhs {
 			out = append(out, f.assignTo(l, tmps[i], define, ind)...)
 		}
 		return out
 	case len(x.Rhs) == 1:
+		if out, ok := f.commaOk(x, define, ind); ok {
+			return out
+		}
 		c, ok := ast.Unparen(x.Rhs[0]).(*ast.CallExpr)
 		if !ok {
 			f.fail("`%s` (comma-ok forms are outside the subset)", f.src(x))
@@ -374,14 +387,21 @@ func (f *g2lFn) ret(x *ast.ReturnStmt, ind int) []string {
 		f.fail("bare return (named results are outside the subset)")
 	case 1:
 		if _, ok := f.typeOf(x.Results[0]).(*types.Tuple); ok {
+			if len(f.inOutNames()) > 0 {
+				f.fail("return of a multi-valued call in a function with in-out parameters")
+			}
 			return []string{g2lInd(ind) + "return " + f.exprNB(x.Results[0])}
 		}
-		return []string{g2lInd(ind) + "return " + f.expr(x.Results[0])}
+		if io := f.inOutNames(); len(io) > 0 {
+			return []string{g2lInd(ind) + "return (" + strings.Join(append([]string{f.retExpr(x.Results[0], 0)}, io...), ", ") + ")"}
+		}
+		return []string{g2lInd(ind) + "return " + f.retExpr(x.Results[0], 0)}
 	}
 	var parts []string
-	for _, r := range x.Results {
-		parts = append(parts, f.expr(r))
+	for i, r := range x.Results {
+		parts = append(parts, f.retExpr(r, i))
 	}
+	parts = append(parts, f.inOutNames()...)
 	return []string{g2lInd(ind) + "return (" + strings.Join(parts, ", ") + ")"}
 }
 
@@ -592,12 +612,14 @@ func (f *g2lFn) rangeStmt(x *ast.RangeStmt, ind int) []string {
 		if k == nil {
 			out = append(out, fmt.Sprintf("%sfor %s in %s do", g2lInd(ind), it, f.expr(x.X)))
 			if v != nil {
+				f.rangeVarMode(v, t)
 				head = append(head, f.letLine(ind+1, v, f.names[v], v.Type(), it))
 			}
 		} else {
 			out = append(out, fmt.Sprintf("%sfor %s in %s.zipIdx do", g2lInd(ind), it, g2lPar(f.expr(x.X))))
 			head = append(head, f.letLine(ind+1, k, f.names[k], k.Type(), "("+it+".2 : Int)"))
 			if v != nil {
+				f.rangeVarMode(v, t)
 				head = append(head, f.letLine(ind+1, v, f.names[v], v.Type(), it+".1"))
 			}
 		}
@@ -616,7 +638,7 @@ func (f *g2lFn) rangeStmt(x *ast.RangeStmt, ind int) []string {
 			head = append(head, f.letLine(ind+1, k, f.names[k], k.Type(), val))
 		}
 	default:
-		f.fail("range over %s", f.g.typeKey(t))
+		out, head = f.rangeOther(x, t, k, v, ind)
 	}
 	f.inLoop++
 	sw := f.inSw
@@ -831,16 +853,15 @@ func (g *g2l) translateFunc(key string) (u *g2lUnit) {
 	f.findMutated(fd)
 	// parameters, receiver first
 	var params, remut []string
+	f.initPtrModes(obj)
+	f.initInOut(obj, g.inOutFor(key))
 	addParam := func(v *types.Var, ptrRecv bool) {
-		if ptrRecv {
-			f.fail("pointer receiver")
-		}
 		name := f.names[v]
 		if name == "" {
 			name = f.fresh("x")
 			f.names[v] = name
 		}
-		params = append(params, fmt.Sprintf("(%s : %s)", name, f.lean(v.Type())))
+		params = append(params, fmt.Sprintf("(%s : %s)", name, f.leanVar(v, v.Type())))
 		if f.mutated[v] {
 			remut = append(remut, fmt.Sprintf("let mut %s := %s", name, name))
 		}
@@ -858,6 +879,7 @@ func (g *g2l) translateFunc(key string) (u *g2lUnit) {
 	} else {
 		resT = f.lean(sig.Results())
 	}
+	resT = f.inOutResult(resT, sig.Results().Len())
 	if !g2lTerminates(fd.Body.List) {
 		f.fail("the body does not end in a return on every path the translator recognises")
 	}
@@ -884,7 +906,7 @@ func (g *g2l) translateFunc(key string) (u *g2lUnit) {
 	u.subs = f.subs
 	if f.hasLoop {
 		// the twin that reports whether a loop ran out of fuel
-		f2 := &g2lFn{g: g, key: key, names: f.names, mutated: f.mutated, depSeen: map[string]bool{}, fuel: f.fuel, fuelChk: true, tmp: 0}
+		f2 := &g2lFn{g: g, key: key, names: f.names, mutated: f.mutated, valPtr: f.valPtr, fnObj: f.fnObj, inOut: f.inOut, depSeen: map[string]bool{}, fuel: f.fuel, fuelChk: true, tmp: 0}
 		var lines []string
 		for _, r := range remut {
 			lines = append(lines, g2lInd(1)+r)
